@@ -93,7 +93,7 @@ def match(
         value = mop.perform_matching()
         return ("ok", value, mop.regex_rule)
     except BaseException as exc:  # noqa: BLE001 - the outcome class is what is judged
-        if isinstance(exc, (KeyboardInterrupt, SystemExit, MemoryError)):
+        if isinstance(exc, (KeyboardInterrupt, SystemExit)):
             raise
         return ("exc", type(exc).__name__, str(exc)[:300])
 
